@@ -4,7 +4,9 @@ package main
 // sets.Set[E] (a struct holding a map), context values, uuid.
 
 import (
+	"fmt"
 	"go/types"
+	"os"
 	"regexp"
 	"strings"
 
@@ -422,6 +424,55 @@ func init() {
 	}
 }
 
+
+// strFold: the compile-time text of a string term built from literals by concatenation, if it is one
+func strFold(t *Term) (string, bool) {
+	if s, ok := strLitOf[t]; ok {
+		return s, true
+	}
+	if t.Op == "str.concat" && len(t.Args) == 2 {
+		a, ok1 := strFold(t.Args[0])
+		b, ok2 := strFold(t.Args[1])
+		return a + b, ok1 && ok2
+	}
+	return "", false
+}
+
+func init() {
+	// sqllist(q, limited): q is literally the listing of table plans, all rows, newest submission first -
+	// SELECT <the eight result columns> FROM plans ORDER BY submit_time DESC - followed by LIMIT $limit exactly when
+	// limited. q may be a conditional over texts built from literals (the engine's if-then-else of the two forms).
+	listRe := regexp.MustCompile(`(?is)^\s*select\s+id\s*,\s*group_id\s*,\s*name\s*,\s*descr\s*,\s*submit_time\s*,\s*state_status\s*,\s*state_start\s*,\s*state_end\s+from\s+plans\s+order\s+by\s+submit_time\s+desc(\s+limit\s+\$limit)?\s*;?\s*$`)
+	var rec func(q, lim *Term) *Term
+	rec = func(q, lim *Term) *Term {
+		if q.Op == "ite" && len(q.Args) == 3 {
+			return Ite(q.Args[0], rec(q.Args[1], lim), rec(q.Args[2], lim))
+		}
+		// a captured variable lives in a cell: read of a conditional heap = conditional of the reads
+		if q.Op == "select" && len(q.Args) == 2 && q.Args[0].Op == "ite" && len(q.Args[0].Args) == 3 {
+			h := q.Args[0]
+			return Ite(h.Args[0], rec(Select(h.Args[1], q.Args[1]), lim), rec(Select(h.Args[2], q.Args[1]), lim))
+		}
+		qs, ok := strFold(q)
+		if !ok {
+			if os.Getenv("GOVC_DEBUG_SQL") != "" {
+				fmt.Fprintln(os.Stderr, "sqllist: not foldable:", q.String())
+			}
+			return UF("sqlListNewestFirst", "Bool", q, lim)
+		}
+		m := listRe.FindStringSubmatch(qs)
+		if m == nil {
+			return False
+		}
+		if m[1] != "" {
+			return lim
+		}
+		return Not(lim)
+	}
+	specBuiltins["sqllist"] = func(env *SpecEnv, e *Expr) SVal {
+		return SVal{T: rec(env.eval(e.Args[0]).T, env.boolean(e.Args[1]))}
+	}
+}
 
 func init() {
 	// cbrow(): the row most recently delivered to the ResultFunc of the sqlitex.Execute in progress / just finished
